@@ -46,7 +46,7 @@ def _init_worker():
 def _one(job):
     seed, engine, idx, keep_sample = job
     rs = mix(seed, ENGINE_OFFSET[engine] + idx)
-    src = GenSource(rs, engine, runner.BOOT['steps'], runner.BOOT['funcs'])
+    src = GenSource(rs, engine, runner.BOOT['steps'], runner.BOOT['funcs'], runner.BOOT['calls'])
     try:
         r = runner.run_plan(src)
     except runner.HarnessError as e:
@@ -233,8 +233,10 @@ def write_evidence(results, seed, tier, wall, nviol, extra=None):
             samples.append({'engine': r['engine'], 'run_seed': r['run_seed'], 'zone_min': p['cfg']['zone_min'],
                             'start': p['cfg']['start'], 'ntasks': p['cfg']['ntasks'],
                             'ops': [{'id': o['id'], 'task': o['task'], 'name': o['name'],
-                                     'points': [(q['step'], q['kind'], (q.get('op') or {}).get('name', q.get('to', q.get('exc'))))
-                                                for q in o.get('points', [])][:6]} for o in ops_][:40]})
+                                     'points': [(q.get('step', 'call#%s' % q.get('call')), q['kind'],
+                                                 (q.get('op') or {}).get('name', q.get('to', q.get('exc'))))
+                                                for q in o.get('points', []) + (o.get('cpoints') or [])][:6]}
+                                    for o in ops_][:40]})
     n = sum(per_engine.values())
     entries_hit = sorted(k[4:] for k in tot if k.startswith('ops.'))
     cov = {
